@@ -149,7 +149,7 @@ def gen_scenario(rng, focus=None, entry=None):
     sc.add("arrival", rng.choice(["infect", "infect", "land"]))
     sc.add("hosts", nhosts)
     # pest-host table: needed for mortality; susceptibilities such that the sum stays <= 1
-    if use_mort or rng.random() < 0.4:
+    if use_mort or rng.random() < 0.4 or (focus == "multi" and rng.random() < 0.8):
         for h in range(nhosts):
             sus = "1" if nhosts == 1 else rng.choice(["1/2", "1/4", "1/8"] if nhosts > 2 else ["1/2", "1/4", "1/2"])
             if nhosts == 1 and rng.random() < 0.3:
@@ -157,19 +157,30 @@ def gen_scenario(rng, focus=None, entry=None):
             lag = rng.randint(0, nm - 1)
             rate = dy(rng, ["0", "1/4", "1/2", "3/4", "1", "1/2", "1/8"])
             sc.add("pht", h, sus, rate, lag)
-        if rng.random() < 0.5 and nhosts >= 1 and entry == "pools":
+        if rng.random() < (0.85 if focus == "multi" else 0.5) and nhosts >= 1 and entry == "pools":
             # competency table: complete (2^n rows) or partial
             if rng.random() < 0.5:
                 for mask in range(2 ** nhosts):
                     pres = [(mask >> b) & 1 for b in range(nhosts)]
                     sc.add("comprow", ",".join(map(str, pres)), "0" if mask == 0 else dy(rng, ["1/4", "1/2", "1", "3/4"]))
             else:
-                nrows = rng.randint(1, 3)
-                for _ in range(nrows):
+                # partial table: several rows that overlap (one host in many rows), in any
+                # order of score - the lookup is "highest score among the satisfied rows that
+                # include the producing host", whatever the order of the rows
+                nrows = rng.randint(1, 5)
+                scores = [dy(rng, ["1/8", "1/4", "3/8", "1/2", "5/8", "3/4", "7/8", "1"]) for _ in range(nrows)]
+                order = rng.choice(["asc", "desc", "random"])
+                if order != "random":
+                    from fractions import Fraction as _F
+                    scores.sort(key=_F, reverse=(order == "desc"))
+                common = rng.randrange(nhosts)
+                for r in range(nrows):
                     pres = [rng.choice([0, 1]) for _ in range(nhosts)]
+                    if rng.random() < 0.7:
+                        pres[common] = 1
                     if sum(pres) == 0:
                         pres[0] = 1
-                    sc.add("comprow", ",".join(map(str, pres)), dy(rng, ["1/4", "1/2", "1", "3/4"]))
+                    sc.add("comprow", ",".join(map(str, pres)), scores[r])
                 if 2 ** nhosts == nrows:
                     sc.add("comprow", ",".join(["1"] * nhosts), "1/2")
     hosts = []
